@@ -28,7 +28,8 @@ RULE = (
     "ro start + offset (None without roEdStart); story end = explicit StoryEnded, else start + "
     "duration; ro.end_time = last story's end; ro.start_time = roEdStart.  Tolerance 1e-6 relative on "
     "floats, 2 us on datetimes (the library sums floats and builds timedeltas).  Non-trivial = >= 3 "
-    "stories with >= 2 distinct duration sources, or a post-merge state with >= 2 stories.")
+    "stories with >= 2 distinct duration sources, or a post-merge state with >= 2 stories."
+    ' Also: running orders without stories (duration 0), an offset on roEdStart only, present-but-empty timing tags (count as absent), roMetadataReplace carrying a new roEdStart in the histories; the oracle reads an independent parse of str(ro).')
 ASSUMPTIONS = ['durations are finite decimal literals 0 <= d <= 1e6, times ISO-8601, within one running order all naive or all with the same UTC offset',
                'when some story has no duration only per-story durations and explicit times are compared']
 MANDATORY = ['aware-times', 'time-without-seconds', 'all-timed', 'explicit-start', 'explicit-end', 'no-roEdStart', 'post-merge:reordered',
